@@ -221,7 +221,7 @@ def _work(args):
             continue
         must = cls == "unique" and propagation_determined(exprs, shapes, kw)
         for name in ("solve_axes", "solve_shapes", "matches"):
-            o = harness.outcome(lambda: getattr(einx, name)(desc, *tensors, **kw), 15)
+            o = harness.outcome(lambda: getattr(einx, name)(desc, *tensors, **kw), 8)
             if o[0] == "timeout":
                 out.append(("timeout", dict(d, entry=name), None))
                 continue
@@ -378,9 +378,13 @@ def run(tier, seed):
             continue
         seen.add(k)
         chk.violation(f"C02.B.{st}[{d.get('entry')}]", f"einx.{d.get('entry')}({d['description']!r}, shapes={d['shapes']}, {d['kwargs']}): {detail}", replay={"kind": "case", "case": d}, found_input=True)
+    n_to = 0
     for r in res:
         if r[0] == "timeout":
-            chk.undecided.append({"case": r[1], "why": "per-call alarm (see known finding F-solver-order-hang)"})
+            n_to += 1
+            chk.undecided.append({"case": {k: v for k, v in r[1].items() if k != "replay"}, "why": "per-call alarm (known finding F-solver-order-hang)"})
+    if n_to:
+        chk.known_finding("F-solver-order-hang", f"{n_to} solve_* calls on (mostly unsolvable / ambiguous) systems with a flatten group next to a concatenation did not return within the per-call alarm")
     chk.add_bounded("random expression lists (flatten, concatenation, numbers; perturbed shapes; unknown tensors; partial / contradicting keyword sizes) through solve_axes / solve_shapes / matches vs a z3 constraint oracle "
                     "(unique / none / ambiguous) and the one-axis-at-a-time propagation criterion; large-magnitude stratum up to 2**180", f"{n} chunks x 40 systems x 3 entry points + 200 large-magnitude calls",
                     len(res), len({(r[1]['description'], str(r[1]['shapes']), str(r[1]['kwargs'])) for r in res}), failures=fails, samples=[{k: v for k, v in r[1].items() if k != 'replay'} for r in res[:2]], note=str(cnt))
